@@ -164,7 +164,7 @@ class H(Harness):
     def gen_plc(self, rnd):
         return {'kind': 'plc', 'seed': rnd.randrange(1 << 30), 'N': rnd.randrange(2, 13), 'exponent': rnd.choice([2, 2.5, 3]),
                 'cutoff': rnd.choice([2, 5, 10, 40]),
-                'ints': [rnd.choice([0, 0, 0, 1, 1, 2, 3, 5, 9, rnd.randrange(99)]) for _ in range(400)]}
+                'ints': [rnd.choice([0, 0, 0, 1, 1, 2, 3, 5, 9, 98, 99, rnd.randrange(130)]) for _ in range(400)]}
 
     def gen_cp(self, rnd):
         Nc, Np = rnd.randrange(1, 11), rnd.randrange(1, 15)
@@ -448,9 +448,12 @@ class H(Harness):
                 return {'order': self.network().order()}
 
         e = E(gen)
-        rc = e.set(params).run(fatal=True)
+        try:
+            rc = e.set(params).run(fatal=True)
+        except Exception as ex:      # observable
+            return {'exception': type(ex).__name__ + ': ' + str(ex), 'want': want}
         ps = rc[epyc.Experiment.PARAMETERS]
-        return {'recorded': ps.get(NetworkGenerator.TOPOLOGY), 'want': want,
+        return {'exception': None, 'recorded': ps.get(NetworkGenerator.TOPOLOGY), 'want': want,
                 'generator_says': e.networkGenerator().topology(), 'kept_params': ps.get('unrelated')}
 
     # ------------------------------------------------------------------ D
@@ -608,6 +611,8 @@ class H(Harness):
         return v
 
     def d_exp(self, case, obs):
+        if obs['exception']:
+            return [{'signature': 'generate-raised', 'detail': obs['exception']}]
         v = []
         if obs['recorded'] != obs['want'] or obs['generator_says'] != obs['want']:
             v.append({'signature': 'topology-marker', 'detail': obs})
@@ -668,6 +673,12 @@ class H(Harness):
         return None
 
     def nontrivial(self, case, obs):
+        try:
+            return self._nontrivial(case, obs)
+        except (KeyError, IndexError, TypeError):      # an observation too broken to classify
+            return None
+
+    def _nontrivial(self, case, obs):
         k = case['kind']
         key = None
         if k == 'quota':
